@@ -166,11 +166,11 @@ def mismatch_refusal(g, odb, osc):
     return None
 
 
-def check(ctx, anchor, db_field, sc_field):
-    g = ctx.graph(anchor)
+def check(ctx, anchor, db_field, sc_field, g=None, span=None):
+    g = g or ctx.graph(anchor)
     f = ctx.facts
     if db_field not in g.fwd or sc_field not in g.fwd:
-        return False, "degree bound or shifted commitment is never read", anchor.body.span
+        return False, "degree bound or shifted commitment is never read", span or anchor.body.span
     cdb, tdb = option_copies(g, db_field)
     csc, tsc = option_copies(g, sc_field)
     odb = presence_observations(g, cdb, tdb)
@@ -183,14 +183,18 @@ def check(ctx, anchor, db_field, sc_field):
             g.reach([res], want=OUTCOME)
             if g.last_goal is not None:
                 return True, "presence of the bound and of the shifted commitment are compared at %s" % span, span
-    # (b) unwrap of the shifted commitment under a test of the bound
+    # (b) unwrap of the shifted commitment under a test of the bound (`ok_or(..)?` refuses by returning the error)
     from .refusal import controlling_conditions
     for bid in sorted(g.scope):
         b = f.bodies[bid]
         for i, t in b.calls():
             nm = (t.get("callee") or "").rsplit("::", 1)[-1]
-            if nm not in ("unwrap", "expect") or not t["args"] or t["args"][0]["k"] not in ("copy", "move"):
+            if nm not in ("unwrap", "expect", "ok_or", "ok_or_else") or not t["args"] or t["args"][0]["k"] not in ("copy", "move"):
                 continue
+            if nm in ("ok_or", "ok_or_else"):
+                g.reach([(bid, t["dst"]["l"])], want=OUTCOME)
+                if g.last_goal is None:
+                    continue
             if (bid, t["args"][0]["pl"]["l"]) not in csc:
                 continue
             if controlling_conditions(g, bid, i) & set(odb):
@@ -200,4 +204,4 @@ def check(ctx, anchor, db_field, sc_field):
     if sp is not None:
         return True, "a refusal at %s is reached exactly when one of the two is present and the other is not" % sp, sp
     return False, ("no refusal ties the presence of the degree bound to the presence of the shifted commitment: a label "
-                   "claiming a bound is accepted even if the shifted part was dropped"), anchor.body.span
+                   "claiming a bound is accepted even if the shifted part was dropped"), span or anchor.body.span
